@@ -312,7 +312,8 @@ def twice(x, p):
     would produce - nothing of the first build's sources or packages."""
     from props import clikit
     first = x.choice('first', ['lua+require', 'lua', 'carts'])
-    second = x.choice('second', ['lua', 'lua+require', 'carts'])
+    second = x.choice('second', ['lua', 'lua+require', 'carts',
+                                 'same project, package edited'])
     files = {'/w/a.p8': cart_text(11), '/w/b.p8': cart_text(23),
              '/w/p1/main.lua': b'local l=require("lib")\nu=1\n',
              '/w/p1/lib.lua': b'return "one"\n',
@@ -331,7 +332,14 @@ def twice(x, p):
     rc1, exc1 = clikit.run_main(argv_for(first, 'p1', '/w/out1.p8'))
     x.check('first build succeeds', And(exc1 is None, rc1 == 0),
             info=repr((rc1, exc1))[:160])
-    rc2, exc2 = clikit.run_main(argv_for(second, 'p2', '/w/out2.p8'))
+    if second == 'same project, package edited':
+        # edit - build - edit - build in one process: the package file of
+        # the first project changes, the project is built again
+        fs.files['/w/p1/lib.lua'] = b'return "one, edited"\n'
+        rc2, exc2 = clikit.run_main(argv_for('lua+require', 'p1',
+                                             '/w/out2.p8'))
+    else:
+        rc2, exc2 = clikit.run_main(argv_for(second, 'p2', '/w/out2.p8'))
     x.check('second build succeeds', And(exc2 is None, rc2 == 0),
             info=repr((rc2, exc2))[:160])
     if exc2 is not None or rc2 != 0 or '/w/out2.p8' not in fs.files:
@@ -339,7 +347,12 @@ def twice(x, p):
     got = clikit.lua_of(fs.files['/w/out2.p8'])
     x.out('code', got)
     from props.C14 import sig_tokens
-    if second == 'lua+require':
+    if second == 'same project, package edited':
+        exp = b'package={loaded={},_c={}}\npackage._c["lib"]=function()\n' + \
+            b'return "one, edited"\n' + b'end\n' + \
+            b''.join(build.REQUIRE_LUA_PREAMBLE_REQUIRE) + \
+            files['/w/p1/main.lua']
+    elif second == 'lua+require':
         exp = b'package={loaded={},_c={}}\npackage._c["lib"]=function()\n' + \
             files['/w/p2/lib.lua'] + b'end\n' + \
             b''.join(build.REQUIRE_LUA_PREAMBLE_REQUIRE) + \
